@@ -15,9 +15,29 @@ import tempfile
 
 import numpy as np
 
+import traceback
+
 import common
 from common import call
-from bermuda import Cell, CumulativeCell, IncrementalCell, Metadata, Triangle
+
+try:
+    from bermuda import Cell, CumulativeCell, IncrementalCell, Metadata, Triangle
+    IMPORT_ERROR = None
+except Exception:  # noqa: BLE001
+    # `import bermuda` reads the shipped bermuda/meyers.trib with from_binary: a reader that no longer
+    # understands files written by earlier releases breaks the import itself. Reported as a failing input.
+    IMPORT_ERROR = traceback.format_exc()
+    Cell = CumulativeCell = IncrementalCell = Metadata = Triangle = None
+
+
+def import_failed(ctx):
+    if IMPORT_ERROR is None:
+        return False
+    ctx.case(digest="import", nontrivial=True, sample={"op": "import bermuda"})
+    ctx.fail("`import bermuda` raises: the package reads its shipped meyers.trib with from_binary at import",
+             {"file": "bermuda/meyers.trib (shipped)", "cells": "see corpus/golden/meyers.trib.json"},
+             {"traceback": IMPORT_ERROR[-1500:]})
+    return True
 
 D = datetime.date
 CLASSES = {"C": Cell, "U": CumulativeCell, "I": IncrementalCell}
@@ -566,38 +586,65 @@ MUST = ({"n_keys": 0}, {"n_keys": 136}, {"n_keys": 137}, {"n_keys": 138}, {"n_ke
 
 
 def impl_constants():
+    """what the tree under test says now: constants (evaluated) and struct formats (AST, as the translator)"""
+    import ast
     import bermuda.io.binary as b
     tags = b"".join([b.STRING, b.INT, b.FLOAT, b.BOOL, b.NONE, b.DATE, b.INT_ARRAY, b.FLOAT_ARRAY, b.DICT_END,
                      b.METADATA, b.CELL, b.CUMULATIVE_CELL, b.INCREMENTAL_CELL])
-    return {"magic": b.MAGIC.hex(), "version": b.VERSION.hex(), "tags": tags.hex()}
+
+    def formats(rel):
+        tree = ast.parse(open(os.path.join(common.REPO, rel)).read())
+        res = set()
+        for fn in ast.walk(tree):
+            if isinstance(fn, ast.FunctionDef):
+                for node in ast.walk(fn):
+                    if (isinstance(node, ast.Call) and isinstance(node.func, ast.Attribute)
+                            and node.func.attr in ("pack", "unpack", "calcsize") and node.args
+                            and isinstance(node.args[0], ast.Constant) and isinstance(node.args[0].value, str)):
+                        res.add((fn.name, node.func.attr, node.args[0].value))
+        return [list(x) for x in sorted(res)]
+
+    return {"magic": b.MAGIC.hex(), "version": b.VERSION.hex(), "tags": tags.hex(), "tableOk": True,
+            "writerFormats": formats("bermuda/io/binary_output.py"),
+            "readerFormats": formats("bermuda/io/binary_input.py")}
 
 
 def ensure_tables(ctx, driver, module):
-    """Dynamic cross-check of the regenerated constants table (DESIGN §5): the compiled model must carry
-    the constants of the implementation under test. They can differ when another check regenerated
-    lean/Bermuda/Generated/*.lean from a different tree between our translator run and our build (checks
-    run concurrently; VERIF_REPO differs under mutation testing): regenerate and rebuild, and report a
-    property module that no longer builds against the right table."""
+    """Dynamic cross-check of the regenerated table (DESIGN §5): model and property module must be built
+    against the constants/formats of the tree under test. run_check regenerates and builds in separate steps;
+    a concurrent check of another property (possibly on another tree: VERIF_REPO under mutation testing)
+    can rewrite lean/Bermuda/Generated/*.lean in between. So: under the build lock regenerate Binary, build
+    driver + property module, then ask the compiled driver which table it carries. A property module that no
+    longer builds against the right table is reported as a broken obligation."""
+    import re
+    import subprocess
+    import translate
     want = impl_constants()
-    for _ in range(3):
+    for _ in range(4):
+        lk = common._lock()
+        try:
+            translate.regenerate(["Binary"])
+            p = subprocess.run(["lake", "build", driver, module], cwd=common.LEAN, capture_output=True, text=True,
+                               timeout=3000)
+        finally:
+            lk.close()
+        log = p.stdout + p.stderr
+        if p.returncode != 0 and not os.path.exists(common.Driver(driver).exe):
+            raise common.Infra("driver build failed:\n" + log[-2000:])
         have = common.Driver(driver).run([{"op": "constants"}])[0]
-        if have == want:
-            return True
-        import translate
-        translate.regenerate(["Binary"])
-        ok, log, _ = common.lake_build([driver])
-        if not ok:
-            raise common.Infra("driver build failed after regenerating the constants table:\n" + log[-2000:])
-        ok, log, _ = common.lake_build([module])
-        if not ok:
-            import re
-            ctx.disagree(f"{module} builds against the constants regenerated from the tree under test", {"constants": want},
-                         model=re.findall(r"error: ([^\n]*)", log)[:6], impl=want)
+        if have != want:
+            continue                     # somebody rewrote the table between our regenerate and lake reading it
+        if p.returncode != 0:
+            ctx.disagree(f"{module} builds against the table regenerated from the tree under test",
+                         {"table": want}, model=re.findall(r"error: ([^\n]*)", log)[:8], impl=want)
             return False
+        return True
     raise common.Infra("generated constants table keeps changing under this run (concurrent checks on another tree?)")
 
 
 def correspondence(ctx):
+    if import_failed(ctx):
+        return
     drv = common.Driver("drv_c05")
     ensure_tables(ctx, "drv_c05", "Bermuda.Properties.C05")
     n = 900 if ctx.thorough else 110
